@@ -14,7 +14,10 @@ from vf import simrt
 from vf.core import Check, CaseResult, HarnessError, U, EPS
 
 TICK = 4 * U
-ELEMS = [None, 0, '', 1, 1, 2, (), False, 'x']
+# elements may themselves be exception instances (results of gather(return_exceptions=True), say): they are
+# data to be yielded, not failures of the source
+ELEMS = [None, 0, '', 1, 1, 2, (), False, 'x', ValueError('an element, not a failure'), KeyError('k'),
+         StopIteration('elem'), StopAsyncIteration('elem'), HarnessError('element'), KeyboardInterrupt, RuntimeError]
 
 
 def gen(rng):
